@@ -15,6 +15,12 @@ and a prompted int whose defaults follow the members (`default 0 if M1`, `defaul
 choice, and with the choice's default member depending on an option defined AFTER the choice (through the condition of the
 choice's `default` or through the member's `depends on`): the loader defers choice selections and default resolution, so
 what it evaluates while the lines are still being read differs from the final configuration.
+The "several definitions" family (MULTI_*) defines one option P of every type (bool int hex string float) at two or three
+places: default-only definition first and the prompt later, prompt first and a default-only definition later, a prompt at
+both places (the first conditional), the only prompt conditional (before / after the default-only definition), promptless /
+prompted / promptless, and promptless everywhere; the definitions carry different defaults, one of them conditional on an
+option Q that is defined between (thorough: also before / after) the definitions; every context, plus one where the later
+definitions sit inside a menu.  User values: one that differs from both defaults and one equal to the first default.
 String alphabet: besides quotes / backslashes / blanks / `#`, one value (quick) made of every character that
 str.splitlines() treats as a line boundary although a text file does not (VT FF FS GS RS NEL U+2028 U+2029) and, in the
 thorough tier, each of them alone next to a quote; the same characters in the Kconfig default of a prompted and of a
@@ -35,7 +41,9 @@ RULE = (
     "explicit-state BFS per program over set/unset/reset and load/merge of files from a fixed menu (tool-written at the "
     "initial and at every single-set state, plus hand-written unmarked files); programs = probe kinds (escaped strings, hex "
     "forms, floats, ranged int, bool, 3-member choice, set / set default target, promptless conditional default before its "
-    "dependency, multi-definition, choice with promptless/prompted options whose defaults follow its members -- written after / "
+    "dependency, multi-definition, one option of each type (bool int hex string float) defined at 2-3 places in 7 shapes "
+    "(np+p, p+np, p+p, np+p-if-Q, p-if-Q+np, np+p+np, np+np; different defaults, one conditional on Q defined between -- thorough: "
+    "also before / after -- the definitions; also with the later definitions inside a menu), choice with promptless/prompted options whose defaults follow its members -- written after / "
     "before the choice, default member conditional on / depending on an option defined after the choice) x contexts (plain, conditional prompt with the condition before/after, depends, menu "
     "depends, menu visible if, if) + probe pairs; each also with a rename table. Depth 3 (thorough 4); the choice-with-followers "
     "family at full depth in the plain context and one less in the others. String values and Kconfig string defaults include the "
@@ -45,6 +53,7 @@ RULE = (
 ASSUMPTIONS = [
     "choice-with-followers programs in a non-plain context are explored one operation shallower than the rest (state spaces of choice programs are the largest)",
     "thorough-tier probe pairs use every earlier probe kind plus `choice_follow`; the three other choice-with-followers kinds are not paired",
+    "options defined at several places are not combined with a second probe kind (no pair programs); an option that has no prompt at any of its definitions is never assigned by set / hand-written files",
     "the canonical key (user values, user selections, injected defaults) determines the written text, so revisited states are not re-checked",
     "load menu is history independent so that merging states is sound; files written deeper in a history are covered by the thorough tier's larger menu",
 ]
@@ -106,6 +115,8 @@ def probe(kind: str, tier: str):
         return [Cfg("P", "bool", prompt="p"), Cfg("P2", "bool", prompt="p2"), src], {"SRC": ["y", "n"], "P": ["n", "y"], "P2": ["n"]}, ["CONFIG_OLD_NP2 !CONFIG_P2"]
     if kind in CHOICE_FOLLOW_KINDS:
         return choice_follow(kind)
+    if kind.startswith("multi:"):
+        return multi_probe(kind)
     raise ValueError(kind)
 
 
@@ -147,6 +158,62 @@ def choice_follow(kind: str):
         ch = Choice(prompt="c", defaults=[("M2", None)], children=ms)
         return [ch] + followers() + [X], dict(picks, X=["y", "n"]), ren
     raise ValueError(kind)
+
+
+# ---- options defined at several places ---------------------------------------------------------------------------
+# type -> (default of the first definition, default of a later definition, user values: one differing from both
+# defaults and one equal to the first default)
+MULTI_TYPES = {
+    "bool": ("y", "n", ["n", "y"]),
+    "int": ("64", "32", ["128", "64"]),
+    "hex": ("0x40", "0x20", ["0x1F", "0x40"]),
+    "string": ('"one"', '"two"', ['u "q"', "one"]),
+    "float": ("1.5", "2.5", ["5", "1.5"]),
+}
+# shape -> definitions in file order: (prompt or None, prompt condition on Q?, which default or None, default condition on Q?)
+# "|" marks the place of the option Q the conditions refer to (position `mid`)
+MULTI_SHAPES = {
+    "np_p": [(None, False, 0, True), "|", ("p", False, 1, False)],  # default-only definition first, prompt later
+    "p_np": [("p", False, 0, True), "|", (None, False, 1, False)],  # prompt first, default-only definition later
+    "p_p": [("p1", True, 0, True), "|", ("p2", False, 1, False)],  # prompt at both places, the first conditional
+    "np_pc": [(None, False, 0, False), "|", ("p", True, 1, True)],  # the only prompt is conditional: hidden user values
+    "pc_np": [("p", True, 0, True), "|", (None, False, 1, False)],
+    "np_p_np": [(None, False, 0, True), "|", ("p", False, None, False), (None, False, 1, False)],
+    "np_np": [(None, False, 0, True), "|", (None, False, 1, False)],  # no prompt anywhere (never assigned by the user)
+}
+MULTI_QPOS_Q = ("mid",)
+MULTI_QPOS_T = ("mid", "first", "last")
+MULTI_LATER_IN_MENU = "later_in_menu"  # extra context of this family: the definitions after Q sit inside a menu
+
+
+def multi_kinds(tier: str) -> List[str]:
+    return [f"multi:{t}:{sh}:{qp}" for t in MULTI_TYPES for sh in MULTI_SHAPES for qp in (MULTI_QPOS_Q if tier == "quick" else MULTI_QPOS_T)]
+
+
+def multi_probe(kind: str, later_in_menu: bool = False):
+    """option P of every type defined at 2..3 places (promptless-then-prompted, prompted-then-promptless, prompted twice,
+    conditional prompt, promptless only) with different, partly conditional defaults; Q (the condition) between / before /
+    after the definitions"""
+    _, t, sh, qp = kind.split(":")
+    d = MULTI_TYPES[t]
+    first: List[Any] = []
+    later: List[Any] = []
+    cur = first
+    for e in MULTI_SHAPES[sh]:
+        if e == "|":
+            cur = later
+            continue
+        prompt, pc, di, dc = e
+        cur.append(Cfg("P", t, prompt=prompt, prompt_cond=S("Q") if (prompt and pc) else None, defaults=[(L(d[di]), S("Q") if dc else None)] if di is not None else []))
+    Q = Cfg("Q", "bool", prompt="q")
+    if later_in_menu:
+        later = [Menu(title="Tuning", children=later)]
+    nodes = {"mid": first + [Q] + later, "first": [Q] + first + later, "last": first + later + [Q]}[qp]
+    setters: Dict[str, List[str]] = {"Q": ["y", "n"]}
+    if any(e != "|" and e[0] for e in MULTI_SHAPES[sh]):
+        setters["P"] = list(d[2])
+    ren = ["CONFIG_OLD_P CONFIG_P"] + (["CONFIG_OLD_NP !CONFIG_P"] if t == "bool" else [])
+    return nodes, setters, ren
 
 
 PROBES = ("string", "hex", "float", "int_range", "range_sym_bounds", "bool", "choice3", "set_target", "wset_target", "promptless_before", "multi_def", "select_imply", "nonbool_in_choice", "nonbool_direct_in_choice", "float_noncanonical", "hex_int_indirect") + CHOICE_FOLLOW_KINDS
@@ -193,6 +260,20 @@ def programs(tier: str) -> Iterator[Dict[str, Any]]:
             if ctx != "plain":
                 st["A"] = ["n", "y"]
             yield {"name": f"{pk}/{ctx}", "prog": Program(children=kids), "setters": st, "renames": ren}
+    # options defined at several places: every type x shape (x position of the condition option) in every context, and
+    # once more with the later definitions inside a menu
+    for mk in multi_kinds(tier):
+        for ctx in CONTEXTS + (MULTI_LATER_IN_MENU,):
+            if ctx == MULTI_LATER_IN_MENU:
+                kids, setters, ren = multi_probe(mk, later_in_menu=True)
+                st = dict(setters)
+            else:
+                nodes, setters, ren = multi_probe(mk)
+                kids = wrap(nodes, ctx)
+                st = dict(setters)
+                if ctx != "plain":
+                    st["A"] = ["n", "y"]
+            yield {"name": f"{mk}/{ctx}", "prog": Program(children=kids), "setters": st, "renames": ren}
     # pairs of probes in one tree (names made distinct by suffixing)
     pairs = list(itertools.combinations(("string", "hex", "bool", "choice3", "set_target", "promptless_before"), 2)) if tier == "quick" else list(itertools.combinations(PROBES[: -len(CHOICE_FOLLOW_KINDS) + 1], 2))
     for a, b in pairs:
@@ -364,7 +445,7 @@ def explore_item(item, r: common.Result, only_history=None):
             )
         if dv.changed_values_promptless:
             r.violation(
-                {"kind": "promptless_mismatch_reported", "variant": tag},
+                {"kind": "promptless_mismatch_reported", "variant": tag, "definitions": sorted({defs_shape(f.k.syms[rec[0]]) for rec in dv.changed_values_promptless if isinstance(rec, tuple) and rec and rec[0] in f.k.syms})},
                 f"[{name}] after {fmt(h)}: reload records promptless default mismatch {sorted(dv.changed_values_promptless)}",
                 case_of(h),
             )
@@ -447,13 +528,19 @@ def first_diff_kind(t1: str, t2: str, st) -> str:
     for tag, i1, i2, j1, j2 in difflib.SequenceMatcher(None, a, b).get_opcodes():
         if tag == "equal":
             continue
-        for line in a[i1:i2 + 1] + b[j1:j2 + 1]:
+        # the lines that differ first; a difference made of `# default:` lines only is attributed to the option line below
+        for line in a[i1:i2] + b[j1:j2] + a[i2:i2 + 1] + b[j2:j2 + 1]:
             m = re.match(r"(?:# )?CONFIG_([A-Za-z0-9_]+)[= ]", line)
             if m and m.group(1) in st.k.syms:
                 s = st.k.syms[m.group(1)]
                 return ("member" if s.choice else "option") + ("" if s.visibility else "_hidden")
         break
     return "other"
+
+
+def defs_shape(s) -> str:
+    """prompts of the option's definitions in file order, e.g. `np+p` = default-only definition first, prompt later"""
+    return "+".join("p" if n.prompt is not None else "np" for n in s.nodes)
 
 
 def sym_kind(s) -> str:
